@@ -19,6 +19,7 @@ RULE = (
     "pool; after every step every pool value's observations equal its snapshot and those of a fresh rebuild; mutation attempts must "
     "raise and change nothing. Non-trivial: >=4 operations with a result sharing runs with an operand whose caches were filled."
     " Programs of up to 70 operations; repeat counts -2..3; unrelated 'noise' values with int-valued style flags are built and rendered in between; the deep observation also checks that the terminal string displays the run attributes and that hash == hash(str)."
+    ' repr, runs and cells are read before and after the memoised views (terminal string, hash, length, width) are first computed and must agree; ljust/rjust with widths below, at and above the length, with and without fill character.'
 )
 ASSUMPTIONS = [
     "an operation that raises (e.g. width of a string with control characters) is not this property's concern; only value stability is",
